@@ -16,7 +16,7 @@ from tvf.records import coherent_rows
 FACTORS = dict(
     target=["gauss2", "bimodal", "expface", "vonmises", "expface_refl", "support", "mixedbc"],
     kernel=["tpcn", "rwm"], resample=["mult", "syst"], clustering=[False, True],
-    mode=["vec", "scalar", "blobs"], metric=["ess", "vol"], N=[32, 64], cluster_every=[1, 2],
+    mode=["vec", "scalar", "blobs", "blobs2"], metric=["ess", "vol"], N=[32, 64], cluster_every=[1, 2],
 )
 
 
@@ -42,7 +42,7 @@ def traced(cfg):
     s, t, like, pt = runs.build(c)
     bad = []
     cnt = dict(rows=0, boundaries=0)
-    have_blobs = c["mode"] == "blobs"
+    have_blobs = c["mode"] in ("blobs", "blobs2")
 
     def check_current(where, sm, need_all=True):
         cur = sm.get_current()
